@@ -90,6 +90,9 @@ SITE = [
     dict(name="sv_td_newshape_b", file=CM, func="tensordot", locator=("assign_value", "newshape_b"), params=["N2"]),
     dict(name="site_td_shortcut", file=CM, func="tensordot",
          locator=("if_test_present", "builtins.any((dim == 0 for dim in chain(newshape_a, newshape_b)))")),
+    # dot of two 1-d operands: the lengths must agree (the repair of D19)
+    dict(name="sv_dot_1d_shape_check", file=CM, func="dot", locator=("if_stmt", "a.shape != b.shape"), params=["sa", "sb"],
+         extern={"a.shape != b.shape": "ext_shape_ne sa sb"}),
     # the outer-loop tests of the two COO x ndarray kernels (the guard that repaired D3 lives here)
     dict(name="sv_dcn_outer_test", file=CM, func="_dot_coo_ndarray_type._dot_coo_ndarray", locator=("while_test", 0),
          params=["didx1", "n", "ncols"], extern={"len(data1)": "Ok n", "out_shape[1]": "Ok ncols"}),
